@@ -1,4 +1,142 @@
-(* placeholder until C12/Proofs*.v land: nothing is claimed proved yet *)
-From V Require Import C12.Glue.
-Theorem c12_placeholder : True. Proof. exact I. Qed.
-Print Assumptions c12_placeholder.
+(* C12 - Sampling is consistent.  Every theorem is about the executable model coq/C12/{Ratio,Model}.v
+   (a bit-exact Flocq binary64 transcription of CalculateThreshold, the four built-in samplers, the
+   sampling part of Tracer::StartSpan); the model is tied to the C++ by ./check C12.
+   [float] is an IEEE-754 binary64 value; [fle a b] is the C++ comparison a <= b (false if either is NaN).
+   NaN ratios are outside the property's domain: the C++ converts NaN to uint64_t (undefined behaviour);
+   statements that need it say [is_nan r = false]; [fle _ _ = true] implies it. *)
+From Coq Require Import ZArith List.
+From V Require Import C12.Glue C12.ProofsRatio C12.Proofs Gen.Consts.
+Local Open Scope Z_scope.
+
+(* --- the threshold: monotone in the ratio over all non-NaN doubles (adjacent doubles, subnormals, +-0, infinities, out of range) *)
+Theorem threshold_monotone : forall r1 r2 : float,
+  is_nan r1 = false -> is_nan r2 = false -> fle r1 r2 = true -> calc_threshold r1 <= calc_threshold r2.
+Proof. exact ProofsRatio.threshold_monotone. Qed.
+Print Assumptions threshold_monotone.
+
+Theorem threshold_range : forall r : float, 0 <= calc_threshold r <= uint64_max.
+Proof. exact calc_threshold_range. Qed.
+Print Assumptions threshold_range.
+
+(* in the computed branch both double -> uint64_t casts are in range, the shift loses no bits and the unsigned sum does not wrap *)
+Theorem threshold_no_wrap : forall r : float,
+  is_nan r = false -> fle r f_zero = false -> fle f_one r = false ->
+  let product := fmul f_u32max r in
+  let hi_bits := modf_int product in
+  let lo_bits := fadd (fldexp (modf_frac product) 32) product in
+  0 <= Btrunc hi_bits < two64 /\
+  0 <= Btrunc lo_bits < two64 /\
+  Z.shiftl (Btrunc hi_bits) 32 < two64 /\
+  Z.shiftl (Btrunc hi_bits) 32 + Btrunc lo_bits < two64 /\
+  calc_threshold r = Z.shiftl (Btrunc hi_bits) 32 + Btrunc lo_bits.
+Proof. exact ProofsRatio.threshold_no_wrap. Qed.
+Print Assumptions threshold_no_wrap.
+
+Theorem threshold_depends_on_value_only : forall r1 r2 : float,
+  fle r1 r2 = true -> fle r2 r1 = true -> calc_threshold r1 = calc_threshold r2.
+Proof. exact Proofs.threshold_depends_on_value_only. Qed.
+Print Assumptions threshold_depends_on_value_only.
+
+(* the factor 2^32-1, the shift 32 and the flag masks the theorems compute with are the ones tools/extract_consts.py reads from /repo *)
+Theorem constants_match_source :
+  uint32_max = c12_threshold_factor /\ 32 = c12_threshold_shift /\
+  c12_kIsSampled = 1 /\ c12_kIsRandom = 2 /\ c12_kAllW3CTraceContext1Flags = 1.
+Proof. exact Proofs.constants_match_source. Qed.
+Print Assumptions constants_match_source.
+
+(* --- "ratio <= 0 samples nothing, ratio >= 1 samples everything" (for every parent, id and other argument) *)
+Theorem ratio_le0_none : forall (r : float) (p : span_ctx) (tid : bytes) (x : extra),
+  fle r f_zero = true -> should_sample (SRatio r) p tid x = (Drop, None).
+Proof. exact Proofs.ratio_le0_none. Qed.
+Print Assumptions ratio_le0_none.
+
+Theorem ratio_ge1_all : forall (r : float) (p : span_ctx) (tid : bytes) (x : extra),
+  fle f_one r = true -> should_sample (SRatio r) p tid x = (RecordAndSample, None).
+Proof. exact Proofs.ratio_ge1_all. Qed.
+Print Assumptions ratio_ge1_all.
+
+(* --- "any trace sampled at a ratio is also sampled at every larger ratio" *)
+Theorem ratio_monotone : forall (r1 r2 : float) (p1 p2 : span_ctx) (tid : bytes) (x1 x2 : extra),
+  is_nan r1 = false -> is_nan r2 = false -> fle r1 r2 = true ->
+  is_sampled (fst (should_sample (SRatio r1) p1 tid x1)) = true ->
+  is_sampled (fst (should_sample (SRatio r2) p2 tid x2)) = true.
+Proof. exact Proofs.ratio_monotone. Qed.
+Print Assumptions ratio_monotone.
+
+(* the integer-level half of it, independent of floating point *)
+Theorem decide_monotone_in_threshold : forall (t1 t2 : Z) (tid : bytes),
+  0 <= t1 <= t2 -> is_sampled (ratio_decide t1 tid) = true -> is_sampled (ratio_decide t2 tid) = true.
+Proof. exact Proofs.decide_monotone_in_threshold. Qed.
+Print Assumptions decide_monotone_in_threshold.
+
+(* --- "the decision depends only on the trace id and the configured ratio" *)
+Theorem decision_depends_only_on_id_and_ratio : forall (r : float) (p1 p2 : span_ctx) (tid1 tid2 : bytes) (x1 x2 : extra),
+  firstn 8 tid1 = firstn 8 tid2 ->
+  should_sample (SRatio r) p1 tid1 x1 = should_sample (SRatio r) p2 tid2 x2.
+Proof. exact Proofs.decision_depends_only_on_id_and_ratio. Qed.
+Print Assumptions decision_depends_only_on_id_and_ratio.
+
+(* the title: the decision is monotone in the trace id (the little-endian integer of its first eight bytes) *)
+Theorem id_threshold_monotone : forall a b : bytes,
+  tid_prefix a <= tid_prefix b -> id_threshold a <= id_threshold b.
+Proof. exact ProofsRatio.id_threshold_monotone. Qed.
+Print Assumptions id_threshold_monotone.
+
+Theorem ratio_sampled_ids_downward_closed : forall (r : float) (p : span_ctx) (tid1 tid2 : bytes) (x : extra),
+  tid_prefix tid1 <= tid_prefix tid2 ->
+  is_sampled (fst (should_sample (SRatio r) p tid2 x)) = true ->
+  is_sampled (fst (should_sample (SRatio r) p tid1 x)) = true.
+Proof. exact Proofs.ratio_sampled_ids_downward_closed. Qed.
+Print Assumptions ratio_sampled_ids_downward_closed.
+
+(* --- the parent-based four-way table, for every delegate, flags byte, local or remote parent *)
+Theorem parent_based_spec : forall (d : sampler) (p : span_ctx) (tid : bytes) (x : extra),
+  (ctx_valid p = true ->
+     should_sample (SParent d) p tid x = ((if ctx_sampled p then RecordAndSample else Drop), Some (c_ts p)) /\
+     delegate_calls p = 0) /\
+  (ctx_valid p = false ->
+     should_sample (SParent d) p tid x = should_sample d p tid x /\ delegate_calls p = 1).
+Proof. exact Proofs.parent_based_spec. Qed.
+Print Assumptions parent_based_spec.
+
+Theorem parent_based_ignores_remote : forall (d : sampler) (tid sid : bytes) (fl : byte) (ts : bytes) (rem1 rem2 : bool) (tr : bytes) (x : extra),
+  ctx_valid (mk_ctx tid sid fl rem1 ts) = true ->
+  should_sample (SParent d) (mk_ctx tid sid fl rem1 ts) tr x = should_sample (SParent d) (mk_ctx tid sid fl rem2 ts) tr x.
+Proof. exact Proofs.parent_based_ignores_remote. Qed.
+Print Assumptions parent_based_ignores_remote.
+
+(* --- "always-on and always-off are constant" *)
+Theorem always_on_constant : forall (p : span_ctx) (tid : bytes) (x : extra), fst (should_sample SAlwaysOn p tid x) = RecordAndSample.
+Proof. exact Proofs.always_on_constant. Qed.
+Print Assumptions always_on_constant.
+Theorem always_off_constant : forall (p : span_ctx) (tid : bytes) (x : extra), fst (should_sample SAlwaysOff p tid x) = Drop.
+Proof. exact Proofs.always_off_constant. Qed.
+Print Assumptions always_off_constant.
+
+(* --- spans started through a Tracer: the sampled flag is the sampler's decision on (the parent the tracer chose, the trace id it chose) *)
+Theorem span_sampled_flag_is_decision : forall (s : sampler) (e : span_ctx) (g : bytes) (rnd : bool) (x : extra),
+  let parent := effective_parent e in
+  let st := start_span s e g rnd x in
+  st_flags st = (if is_sampled (fst (should_sample s parent (st_tid st) x)) then 1 else 0) /\
+  st_tid st = (if ctx_valid e then c_tid e else g).
+Proof. exact Proofs.span_sampled_flag_is_decision. Qed.
+Print Assumptions span_sampled_flag_is_decision.
+
+(* "so all participants in a trace agree" *)
+Theorem participants_agree : forall (r : float) (e1 e2 : span_ctx) (g1 g2 : bytes) (rnd1 rnd2 : bool) (x1 x2 : extra),
+  firstn 8 (if ctx_valid e1 then c_tid e1 else g1) = firstn 8 (if ctx_valid e2 then c_tid e2 else g2) ->
+  st_flags (start_span (SRatio r) e1 g1 rnd1 x1) = st_flags (start_span (SRatio r) e2 g2 rnd2 x2).
+Proof. exact Proofs.participants_agree. Qed.
+Print Assumptions participants_agree.
+
+Theorem parent_based_span_inherits : forall (d : sampler) (e : span_ctx) (g : bytes) (rnd : bool) (x : extra),
+  ctx_valid e = true ->
+  let st := start_span (SParent d) e g rnd x in
+  st_tid st = c_tid e /\ st_flags st = (if ctx_sampled e then 1 else 0) /\ st_ts st = c_ts e.
+Proof. exact Proofs.parent_based_span_inherits. Qed.
+Print Assumptions parent_based_span_inherits.
+
+(* --- the SPEC checkers that ./check runs on the implementation's observations accept every answer of the model *)
+Theorem model_meets_spec : forall (l : list tok) (c : case), parse_case l = Some c -> run_spec l (run_model l) = [].
+Proof. exact Proofs.model_meets_spec. Qed.
+Print Assumptions model_meets_spec.
